@@ -424,6 +424,32 @@ impl Prop for C11 {
                 out.push(Case::corr(Sexp::app("fold", vec![e])).tag(format!("sweep-float-{name}")));
             }
         }
+        // NaN operands: not writable as a literal, but any constant expression can produce one
+        // (`INF - INF`, `0.0 / 0.0`, `INF * 0.0`); IEEE comparisons with a NaN are all false except `!=`
+        let f = |bits: u32| Sexp::app("f", vec![Sexp::int(bits as i64)]);
+        let nan_makers = [
+            Sexp::app("bin", vec![Sexp::atom("sub"), f(0x7f80_0000), f(0x7f80_0000)]),
+            Sexp::app("bin", vec![Sexp::atom("div"), f(0), f(0)]),
+            Sexp::app("bin", vec![Sexp::atom("mul"), f(0xff80_0000), f(0x8000_0000)]),
+            Sexp::app("un", vec![Sexp::atom("neg"), Sexp::app("bin", vec![Sexp::atom("add"), f(0x7f80_0000), f(0xff80_0000)])]),
+        ];
+        for name in ["add", "sub", "mul", "div", "eq", "ne", "lt", "le", "gt", "ge"] {
+            for (k, nan) in nan_makers.iter().enumerate() {
+                for j in 0..(6 * scale) {
+                    let other = if j == 0 { nan_makers[(k + 1) % nan_makers.len()].clone() } else { f(rng.float_bits()) };
+                    let (l, r) = if j % 2 == 0 { (nan.clone(), other) } else { (other, nan.clone()) };
+                    let e = Sexp::app("bin", vec![Sexp::atom(name), l, r]);
+                    out.push(Case::search(Sexp::app("specfold", vec![e.clone()])).tag(format!("spec-nan-{name}")));
+                    out.push(Case::corr(Sexp::app("fold", vec![e])).tag(format!("sweep-nan-{name}")));
+                }
+            }
+        }
+        for name in ["neg", "castI"] {
+            for nan in &nan_makers {
+                let e = Sexp::app("un", vec![Sexp::atom(name), nan.clone()]);
+                out.push(Case::corr(Sexp::app("fold", vec![e])).tag(format!("sweep-nan-unop-{name}")));
+            }
+        }
         for name in ["neg", "not", "bnot", "castI", "castF"] {
             for _ in 0..200 * scale {
                 let e = Sexp::app("un", vec![Sexp::atom(name), Sexp::app("i", vec![Sexp::int(rng.int_boundary())])]);
@@ -454,6 +480,37 @@ impl Prop for C11 {
             for r in 4..8 { regs.push(Sexp::list(vec![Sexp::int(10000 + r), Sexp::atom("f"), Sexp::int(rng.float_bits())])); }
             let nt = has_const_subtree(&e);
             out.push(Case::search(Sexp::app("vm", vec![e, Sexp::list(regs)])).tag("vm-before-after").trivial(!nt));
+        }
+        // (c') partially constant shapes `reg op c` / `c op reg` with the constants that tempt an
+        // "identity" rewrite (0, 1, -1, +-0.0, +-1.0), registers holding the values where such a rewrite
+        // is wrong (-0.0, MIN, -1, 0, inf)
+        {
+            let int_ops = ["add", "sub", "mul", "div", "rem", "bor", "xor", "band", "shl", "shr", "ushr", "lor", "land", "eq", "ne", "lt", "le", "gt", "ge"];
+            let flt_ops = ["add", "sub", "mul", "div", "eq", "ne", "lt", "le", "gt", "ge"];
+            let int_vals = [0i32, 1, -1, i32::MIN, i32::MAX, 32, 5];
+            let flt_vals = [0x8000_0000u32, 0, 0x3f80_0000, 0xbf80_0000, 0x7f80_0000, 0xff80_0000, 0x0000_0001, 0x4049_0fdb];
+            let regs_sexp = |iv: i32, fv: u32| Sexp::list(vec![
+                Sexp::list(vec![Sexp::int(10000), Sexp::atom("i"), Sexp::int(iv)]), Sexp::list(vec![Sexp::int(10004), Sexp::atom("f"), Sexp::int(fv as i64)])]);
+            for op in int_ops {
+                for c in [0i32, 1, -1] {
+                    for side in 0..2 {
+                        let r = Sexp::app("reg", vec![Sexp::int(10000), Sexp::atom("i")]);
+                        let k = Sexp::app("i", vec![Sexp::int(c)]);
+                        let e = Sexp::app("bin", vec![Sexp::atom(op), if side == 0 { r.clone() } else { k.clone() }, if side == 0 { k } else { r }]);
+                        for iv in int_vals { out.push(Case::search(Sexp::app("vm", vec![e.clone(), regs_sexp(iv, 0)])).tag("vm-identity-shape-int")); }
+                    }
+                }
+            }
+            for op in flt_ops {
+                for c in [0u32, 0x8000_0000, 0x3f80_0000, 0xbf80_0000] {
+                    for side in 0..2 {
+                        let r = Sexp::app("reg", vec![Sexp::int(10004), Sexp::atom("f")]);
+                        let k = Sexp::app("f", vec![Sexp::int(c as i64)]);
+                        let e = Sexp::app("bin", vec![Sexp::atom(op), if side == 0 { r.clone() } else { k.clone() }, if side == 0 { k } else { r }]);
+                        for fv in flt_vals { out.push(Case::search(Sexp::app("vm", vec![e.clone(), regs_sexp(0, fv)])).tag("vm-identity-shape-float")); }
+                    }
+                }
+            }
         }
         // (d) named const vs inline through the real ANM compiler
         for _ in 0..150 * scale {
